@@ -70,6 +70,10 @@ Inductive Op :=
 
 Section Solo.
   Variable sig_ok : bytes -> bytes -> bytes -> bool.
+  (** [sig_malformed sigbz]: the bytes unmarshal into a signing.SignatureDescriptor_Data whose [Sum] (or that
+      of a nested multi-signature entry) is unset, on which the SDK's signing.SignatureDataFromProto —
+      called by codec.go:UnmarshalSignatureData — panics ("unexpected case <nil>"). *)
+  Variable sig_malformed : bytes -> bool.
 
   Definition next_seq (s : N) : N := (s + 1) mod two64.    (* cs.Sequence++ on a uint64 *)
 
@@ -77,10 +81,13 @@ Section Solo.
   Definition sd_valid (s : SigAndData) : bool :=
     negb (is_nil (sd_sig s)) && negb (is_nil (sd_data s)) && negb (is_nil (sd_path s)) && negb (sd_ts s =? 0).
 
-  (** misbehaviour_handle.go: verifySignatureAndData *)
-  Definition verify_sig_and_data (st : SmState) (mseq : N) (s : SigAndData) : bool :=
-    sd_path_ok s &&
-    sig_ok (sm_pk st) (sign_bytes_enc mseq (sd_ts s) (sm_div st) (sd_path s) (sd_data s)) (sd_sig s).
+  (** misbehaviour_handle.go: verifySignatureAndData — path must unmarshal, then UnmarshalSignatureData
+      (may panic), then VerifySignature *)
+  Definition verify_sig_and_data (st : SmState) (mseq : N) (s : SigAndData) : Outcome :=
+    if negb (sd_path_ok s) then Err
+    else if sig_malformed (sd_sig s) then Panic
+    else if sig_ok (sm_pk st) (sign_bytes_enc mseq (sd_ts s) (sm_div st) (sd_path s) (sd_data s)) (sd_sig s)
+         then Ok else Err.
 
   (** the message and signature a verification operation checks in state [st] (None: it never gets there
       for structural reasons) *)
@@ -108,6 +115,7 @@ Section Solo.
     | ProofBad => (st, Err)                                    (* cdc.Unmarshal fails *)
     | ProofTsd sd ts =>
         if is_nil sd then (st, Err)                            (* len(SignatureData) == 0 *)
+        else if sig_malformed sd then (st, Panic)              (* UnmarshalSignatureData -> SignatureDataFromProto *)
         else if ts <? sm_ts st then (st, Err)                  (* cs.ConsensusState.GetTimestamp() > timestamp *)
         else match path with
              | POther => (st, Err)
@@ -133,6 +141,7 @@ Section Solo.
                  if sm_frozen st then (st, Err)
                  (* verifyHeader *)
                  else if h_ts h <? sm_ts st then (st, Err)
+                 else if sig_malformed (h_sig h) then (st, Panic)   (* UnmarshalSignatureData *)
                  else if sig_ok (sm_pk st)
                            (sign_bytes_enc (sm_seq st) (h_ts h) (sm_div st) sentinel_header_path
                                            (header_data_enc (Some npk) (h_newdiv h)))
@@ -144,24 +153,26 @@ Section Solo.
     | OpMisbehaviour mseq s1 s2 =>
         (* Misbehaviour.ValidateBasic *)
         if mseq =? 0 then (st, Err)
-        else match s1 with
-             | None => (st, Panic)                             (* m.SignatureOne.ValidateBasic() on nil *)
-             | Some a =>
+        else match s1, s2 with
+             | Some a, Some b =>
                  if negb (sd_valid a) then (st, Err)
-                 else match s2 with
-                      | None => (st, Panic)
-                      | Some b =>
-                          if negb (sd_valid b) then (st, Err)
-                          else if bytes_eqb (sd_sig a) (sd_sig b) then (st, Err)
-                          else if bytes_eqb (sd_path a) (sd_path b) && bytes_eqb (sd_data a) (sd_data b) then (st, Err)
-                          (* keeper.UpdateClient: Status must be Active *)
-                          else if sm_frozen st then (st, Err)
-                          (* verifyMisbehaviour *)
-                          else if negb (verify_sig_and_data st mseq a) then (st, Err)
-                          else if negb (verify_sig_and_data st mseq b) then (st, Err)
+                 else if negb (sd_valid b) then (st, Err)
+                 else if bytes_eqb (sd_sig a) (sd_sig b) then (st, Err)
+                 else if bytes_eqb (sd_path a) (sd_path b) && bytes_eqb (sd_data a) (sd_data b) then (st, Err)
+                 (* keeper.UpdateClient: Status must be Active *)
+                 else if sm_frozen st then (st, Err)
+                 (* verifyMisbehaviour *)
+                 else match verify_sig_and_data st mseq a with
+                      | Ok =>
+                          match verify_sig_and_data st mseq b with
                           (* CheckForMisbehaviour = true; UpdateStateOnMisbehaviour *)
-                          else (mkSm (sm_seq st) true (sm_pk st) (sm_div st) (sm_ts st), Ok)
+                          | Ok => (mkSm (sm_seq st) true (sm_pk st) (sm_div st) (sm_ts st), Ok)
+                          | o => (st, o)
+                          end
+                      | o => (st, o)
                       end
+             (* SignatureOne == nil || SignatureTwo == nil (since /repo commit 6331512; a nil dereference before) *)
+             | _, _ => (st, Err)
              end
     | OpVerifyMembership p path value =>
         if sm_frozen st then (st, Err) else verify_proof st p path value
